@@ -498,6 +498,7 @@ pub fn zst<const N: usize>(ctx: &mut Ctx) {
         }
     }
     // random histories
+    ctx.can_skip = false;
     let mut rng = Rng::new(ctx.args.seed ^ hash64(&format!("zst|{}|{}", N, ctx.args.shard.0)));
     let mut done = 0;
     while done < random_ops {
